@@ -148,6 +148,9 @@ def stream_meaning(s, deviation=None):
     st = _blank()
     link = None
     unknown = 0
+    if deviation == "osc-bel":
+        # rich 9.10.0: an OSC string ending in BEL is not an OSC token; re_csi strips the "ESC ]" and the rest is text
+        s = re.sub(r"\x1b\]([^\x07\x1b\n]*)\x07", lambda m: m.group(1), s)
     if deviation == "cr":
         # rich 9.10.0: what follows the LAST carriage return of each line (a trailing CR erases the line)
         s = "\n".join(l.rsplit("\r", 1)[-1] for l in s.split("\n"))
